@@ -2,5 +2,5 @@
 import json,sys
 p='/verif/seeded/%s/meta.json'%sys.argv[1]
 m=json.load(open(p)); m['change']=sys.argv[2]; m['needs_to_manifest']=sys.argv[3]
-m['what_was_run']='tools/try_seeded.py: 51 baseline tests with the change, demo.py with/without the change in the scratch worktree, then git apply to /repo, ./check <prop> --tier quick, git checkout -- .'
+m['what_was_run']='tools/try_seeded.py: 51 baseline tests with the change, demo.py with/without the change in the scratch worktree, then the patch applied to a scratch copy of /repo HEAD (VERIF_REPO), ./check <prop> --tier quick, copy deleted'
 json.dump(m,open(p,'w'),indent=1)
